@@ -920,6 +920,60 @@ theorem relForm11_witness_subthreshold :
   rw [h2, Complex.conj_ofReal, ← Complex.ofReal_mul]
   norm_num
 
+/-! ## Part F — the guard is about the CALLER's phase-space factor: `formulate` forwards it
+
+The theorems of Part D are conditional on `0 < ρ_i(s)` and `0 < ρ_i(m_R²)` where `ρ` (`rho{i}`,
+`rhoR_{R}_{i}`) is ONE phase-space implementation: the one passed to `formulate`. That the ρ of
+`√ρ K̂ (1 − iρK̂)⁻¹ √ρ` and the ρ inside every energy-dependent width are this same implementation
+(and every form factor carries the passed angular momentum / radius) is a fact about the source; it is
+regenerated as `occTable` (from `formulate(..., phsp_factor=PhaseSpaceFactorC09Marker,
+angular_momentum=L, meson_radius=d)`, the same call that the definitions of Part D are translated
+from) and decided by the kernel. With a factor that is real and positive below threshold
+(`PhaseSpaceFactorAbs`) the guard holds for sub-threshold poles too, so those inputs must be unitary. -/
+
+/-- An itemised occurrence carries the passed arguments; pole and channel were identified. -/
+def itemOk (it : OccItem) : Bool :=
+  it.pole != 99 && it.channel != 99 &&
+  (if it.kind == "W" then
+      it.phsp == "PhaseSpaceFactorC09Marker" && it.angMom == "L" && it.radius == "d"
+   else if it.kind == "Wf" || it.kind == "F" then it.angMom == "L" && it.radius == "d"
+   else (it.kind == "R" || it.kind == "Wr") && it.phsp == "PhaseSpaceFactorC09Marker")
+
+def hasItem (o : Occ) (k : String) (R i : Nat) : Bool :=
+  o.items.any fun it => it.kind == k && it.pole == R && it.channel == i
+
+/-- Every channel has its phase-space node at `s` in the matrix expression; every pole × channel has
+its energy-dependent width, and inside that width the phase-space nodes and form factors at `s` and
+at `m_R²`. -/
+def covers (o : Occ) : Bool :=
+  (List.range o.nChannels).all fun i =>
+    hasItem o "R" 0 i && hasItem o "Wr" 0 i && hasItem o "Wf" 0 i &&
+      ((List.range o.nPoles).all fun r =>
+        hasItem o "W" (r + 1) i && hasItem o "Wr" (r + 1) i && hasItem o "Wf" (r + 1) i)
+
+/-- A row forwards the arguments: the relativistic class contains exactly the passed phase-space
+implementation, angular momentum and radius — as sets and for every pole × channel, inside the
+widths too; the non-relativistic class (which takes none of them) contains none. -/
+def honours (o : Occ) : Bool :=
+  if o.relativistic then
+    (o.phsp == ["PhaseSpaceFactorC09Marker"] && o.angMom == ["L"] && o.radius == ["d"]
+      && o.items.all itemOk && covers o)
+  else (o.phsp == [] && o.angMom == [] && o.radius == [] && o.items.isEmpty)
+
+/-- **The phase-space factor, angular momentum and meson radius passed to `formulate` are the only
+ones that occur anywhere in the formulated T-matrix, the energy-dependent widths included** — both
+K-matrix classes, n, n_R ∈ {1,2}, `return_t_hat` on/off. -/
+theorem formulate_forwards_arguments : occTable.all honours = true := by decide
+
+/-- The table is not empty: both classes, every (n, n_R) ∈ {1,2}², `return_t_hat` on and off. -/
+theorem occTable_covers :
+    occTable.length = 12 ∧
+    (∀ c ∈ ["NonRelativisticKMatrix", "RelativisticKMatrix"], ∀ n ∈ [1, 2], ∀ p ∈ [1, 2],
+      occTable.any (fun o => o.cls == c && o.nChannels == n && o.nPoles == p) = true) ∧
+    (∀ h ∈ [true, false], occTable.any (fun o => o.relativistic && o.hat == h && o.nChannels == 2
+      && o.nPoles == 2) = true) := by
+  decide
+
 /-! ## Non-vacuity of the hypotheses -/
 
 /-- The denominators of the regenerated entries are non-zero e.g. at K = 0 (and, by
